@@ -1453,6 +1453,22 @@ def _(e):
     return "sptenrand", ttb.sptenrand, (e.shape,), {"density": [1.5, -0.1][int(e.rng.integers(0, 2))]}, None, {}
 
 
+# every constructor row once more with copying switched off: the no-copy path stores the caller's components, it does not excuse them
+# from the consistency checks
+def _nocopy(make):
+    def make2(e):
+        made = make(e)
+        if made is None:
+            return None
+        op, fn, args, kw, recv, feats = made
+        return op, fn, args, dict(kw, copy=False), recv, dict(feats, nocopy=True)
+    return make2
+
+
+for _name in [n_ for n_ in list(ROWS) if ".__init__:" in n_ and n_.split(".")[0] in ("tensor", "sptensor", "ktensor", "ttensor", "tenmat", "sptenmat", "sumtensor")]:
+    ROWS[_name + "(copy=False)"] = {"make": _nocopy(ROWS[_name]["make"]), "orders": ROWS[_name]["orders"]}
+
+
 # ------------------------------------------------------------------ execution ------------------------
 def run_case(case, ctx):
     import contextlib
